@@ -142,7 +142,32 @@ def swap_commutative(root: str, files: List[str] = None):
         _rewrite(root, rel, lambda t, s: T().visit(t))
 
 
+def rename_side_params(root: str, files: List[str] = None):
+    """Rename the side-carrying parameters / locals of the sync manager consistently (no attribute or cross-file keyword has these names)."""
+    ren = {"synced": "dst_side", "translated_path": "dest_path", "defer_side": "keep_side", "replace_side": "other_one"}
+
+    class T(ast.NodeTransformer):
+        def visit_Name(self, n):
+            if n.id in ren:
+                n.id = ren[n.id]
+            return n
+
+        def visit_arg(self, n):
+            if n.arg in ren:
+                n.arg = ren[n.arg]
+            return n
+
+        def visit_keyword(self, n):
+            self.generic_visit(n)
+            if n.arg in ren:
+                n.arg = ren[n.arg]
+            return n
+    for rel in files or ["cloudsync/sync/manager.py"]:
+        _rewrite(root, rel, lambda t, s_: T().visit(t))
+
+
 GENERIC_BENIGN = {
+    "rename-side-params": rename_side_params,
     "reemit": reemit,
     "insert-logging": insert_logging,
     "rename-locals": rename_locals,
